@@ -23,6 +23,33 @@ use crate::shardgen::*;
 
 type Fail = (String, String);
 
+/// An AsyncRead over a byte slice that hands out at most a few bytes (1..=max, varying) per poll: short reads, as a
+/// network body or a small BufReader delivers them.
+pub struct Piecewise<'a> {
+    data: &'a [u8],
+    pos: usize,
+    max: usize,
+    state: u64,
+}
+
+impl<'a> Piecewise<'a> {
+    pub fn new(data: &'a [u8], max: usize, seed: u64) -> Self {
+        Piecewise { data, pos: 0, max: max.max(1), state: seed | 1 }
+    }
+}
+
+impl futures::io::AsyncRead for Piecewise<'_> {
+    fn poll_read(mut self: std::pin::Pin<&mut Self>, _cx: &mut std::task::Context<'_>, buf: &mut [u8]) -> std::task::Poll<std::io::Result<usize>> {
+        self.state = self.state.wrapping_mul(6364136223846793005).wrapping_add(1442695040888963407);
+        let want = 1 + (self.state >> 33) as usize % self.max;
+        let n = want.min(buf.len()).min(self.data.len() - self.pos);
+        let p = self.pos;
+        buf[..n].copy_from_slice(&self.data[p..p + n]);
+        self.pos += n;
+        std::task::Poll::Ready(Ok(n))
+    }
+}
+
 fn fail<T>(sig: &str, msg: impl Into<String>) -> Result<T, Fail> {
     Err((sig.to_string(), msg.into()))
 }
@@ -239,8 +266,10 @@ pub fn check_shard_against_model(bytes: &[u8], model: &Model, rng: &mut Rng, o: 
         let rt = rt();
         let mut got_f = Vec::new();
         let mut got_c = Vec::new();
+        // delivered in short pieces (<= 7 / 100 / 4096 bytes per poll)
+        let piece_max = [7usize, 100, 4096][(bytes.len() + want_f.len()) % 3];
         let r = rt.block_on(async {
-            let mut ar = futures::io::Cursor::new(bytes);
+            let mut ar = Piecewise::new(bytes, piece_max, bytes.len() as u64);
             process_shard_stream_async(
                 &mut ar,
                 Some(|fv: mdb_shard::file_structs::MDBFileInfoView| {
@@ -267,7 +296,7 @@ pub fn check_shard_against_model(bytes: &[u8], model: &Model, rng: &mut Rng, o: 
         let ms = MDBMinimalShard::from_reader(&mut Cursor::new(bytes), true, true).map_err(|e| ("shard-minimal-error".to_string(), format!("{e}")))?;
         let ms2 = rt
             .block_on(async {
-                let mut ar = futures::io::Cursor::new(bytes);
+                let mut ar = Piecewise::new(bytes, piece_max, 7 + bytes.len() as u64);
                 MDBMinimalShard::from_reader_async(&mut ar, true, true).await
             })
             .map_err(|e| ("shard-minimal-async-error".to_string(), format!("{e}")))?;
